@@ -152,6 +152,23 @@ static void congestionCase(Rng &rng, CaseResult &r) {
     float cong = rng.chance(0.3) ? (float)rng.unif(0.0, 1.0) : (rng.chance(0.1) ? 1.0f : (float)rng.unif(1.0, 3.0));
     map.emplace_back(reg, cong);
   }
+  bool layered = rng.chance(0.4);
+  if (layered) {
+    // congestion maps as a router reports them: the same grid of bins once per layer / direction, concatenated, so that several
+    // entries carry exactly the same rectangle with different values (in either order)
+    int gx = (int)rng.range(1, 6), gy = (int)rng.range(1, 6), layers = (int)rng.range(1, 3);
+    int bw = std::max(1, area.width() / gx + (int)rng.range(0, 2)), bh = std::max(1, area.height() / gy + (int)rng.range(0, 2));
+    for (int l = 0; l < layers; ++l)
+      for (int i = 0; i < gx; ++i)
+        for (int j = 0; j < gy; ++j) {
+          if (rng.chance(0.3)) continue;
+          Rectangle reg(area.minX + i * bw, area.minX + (i + 1) * bw, area.minY + j * bh, area.minY + (j + 1) * bh);
+          float cong = rng.chance(0.4) ? (float)rng.unif(0.0, 1.0) : (float)rng.unif(1.0, 3.0);
+          map.emplace_back(reg, cong);
+        }
+    if (rng.chance(0.3)) for (int i = (int)map.size() - 1; i > 0; --i) std::swap(map[i], map[rng.range(0, i)]);
+    nreg = (int)std::min<size_t>(map.size(), 9);
+  }
   float fixedPenalty = rng.chance(0.5) ? 0.0f : (float)rng.unif(0.0, 2.0), penaltyFactor = rng.chance(0.5) ? 1.0f : (float)rng.unif(1.0, 4.0);
   if (r.needSample()) {
     vf::J j = vf::J::obj();
@@ -184,7 +201,7 @@ static void congestionCase(Rng &rng, CaseResult &r) {
     if (exp > 1.0) ++expanded;
   }
   r.nontrivial = expanded > 0;
-  r.sig = "G" + std::to_string(nreg) + "e" + std::to_string(std::min(expanded, 9)) + (fixedPenalty > 0 ? "p" : "-") + (penaltyFactor > 1 ? "f" : "-");
+  r.sig = "G" + std::to_string(nreg) + "e" + std::to_string(std::min(expanded, 9)) + (fixedPenalty > 0 ? "p" : "-") + (penaltyFactor > 1 ? "f" : "-") + (layered ? "L" : "");
 }
 
 int main(int argc, char **argv) {
